@@ -56,6 +56,20 @@ def cases(tier, seed):
         fr = ('.' + ''.join(rng.choice('0123456789') for _ in range(rng.randint(1, 18)))) if rng.random() < 0.6 else ''
         ex = (rng.choice('eE') + rng.choice(['', '+', '-']) + str(rng.randint(0, 330))) if rng.random() < 0.4 else ''
         add(rng.choice(['', '-']) + ip + fr + ex, ('number-gen',))
+    # the number grammar digit by digit: every exponent digit string of length 1..3 (leading zeros included) with each sign
+    # form, on a few mantissas; every fraction digit string of length 1..2; integer parts 0, 1..9, with trailing zeros
+    exps = [''.join(p) for L in (1, 2, 3) for p in itertools.product('0123456789', repeat=L)]
+    if tier == 'quick':
+        exps = [e for e in exps if len(e) < 3] + rng.sample([e for e in exps if len(e) == 3], 150)
+    for ex in exps:
+        if int(ex) > 330:
+            continue
+        m = rng.choice(['1', '0', '1.5', '0.25', '12', '9.99', '10', '100.001'])
+        add('%s%s%s%s' % (m, rng.choice('eE'), rng.choice(['', '+', '-']), ex), ('number-exp',))
+    for fr in [''.join(p) for L in (1, 2) for p in itertools.product('0123456789', repeat=L)]:
+        add('%s.%s' % (rng.choice(['0', '1', '10', '7']), fr), ('number-frac',))
+        if rng.random() < 0.3:
+            add('-%s.%se%s' % (rng.choice(['0', '3']), fr, rng.choice(['0', '00', '01', '-02', '+10'])), ('number-frac',))
     # nested containers with arbitrary inter-token whitespace
     def jv(d):
         k = rng.random()
@@ -75,7 +89,7 @@ def cases(tier, seed):
 def run(tier, seed, replay=None):
     return simple_run('C11', tier, seed, replay,
         'RFC 8259 texts: all strings of up to 2 (quick, sampled above 1500) / 3 (thorough) units over an alphabet of every escape form and representative raw characters '
-        '(ASCII, 2/3/4-byte, JSONata metacharacters), single-quoted twins, malformed escapes / unpaired surrogates, a backslash followed by every code point below U+0800 and a sample (thorough: all of the BMP) above, every number syntax incl. -0, subnormals, 17+ digit and >2^53 '
+        '(ASCII, 2/3/4-byte, JSONata metacharacters), single-quoted twins, malformed escapes / unpaired surrogates, a backslash followed by every code point below U+0800 and a sample (thorough: all of the BMP) above, every number syntax incl. -0, every exponent digit string of length 1..3 and every fraction digit string of length 1..2 (leading zeros included), subnormals, 17+ digit and >2^53 '
         'integers and out-of-range numbers, generated numbers from the grammar, nested containers with arbitrary inter-token whitespace; each text both parsed (model parser vs '
         'implementation AST, exact) and evaluated (model vs implementation, and encoding/json as independent oracle); distinct = distinct text',
         cases, owner_direct=('jsonself',), timeout_ms=2000)
